@@ -12,6 +12,8 @@ IMPORTS = "From GW Require Import Base CodecBase CodecSlatepack CodecSlate Codec
 
 
 def chunks(h):
+    if not h:
+        return "(@nil N)"
     return cL(["0x1%s%%N" % h[i:i + 512] for i in range(0, len(h), 512)])
 
 
@@ -100,10 +102,10 @@ def v4_term(r):
 
     def same_or(v, nums):
         # "[]" stands for "equal to the slate itself" (keeps the generated Coq files small)
-        return "[]" if v == canon else pack_nums(nums)
+        return "(@nil N)" if v == canon else pack_nums(nums)
     return "(%s, %s, %s, %s, %s, %s, %s)" % (
         slate_term(canon),
-        chunks(im["bin"]) if isinstance(im["bin"], str) else "[]",
+        chunks(im["bin"]) if isinstance(im["bin"], str) else "(@nil N)",
         same_or(im["bin_dec"], res_nums(im["bin_dec"])),
         pack_nums(im["json_fields"] or []),
         same_or(im["json_dec"], res_nums(im["json_dec"])),
@@ -145,19 +147,23 @@ def run_harness(binp, wd, name, args, env=None):
 
 
 def eval_kind(rows, kind, term_fn, run_fn):
-    idx = [i for i, r in enumerate(rows) if r["case"]["k"] == kind]
-    if not idx:
-        return {}
-    terms = [term_fn(rows[i]) for i in idx]
-    order = sorted(range(len(idx)), key=lambda k: len(terms[k]))
-    nsh = 16
-    buckets = [[] for _ in range(nsh)]
-    for j, k in enumerate(order):
-        buckets[j % nsh].append(k)
-    flat = [k for b in buckets for k in b]
-    shard = max(1, (len(flat) + nsh - 1) // nsh)
-    res = vlib.coq_eval(PROP + "_%d" % kind, IMPORTS, run_fn, [terms[k] for k in flat], shard=shard)
-    return {idx[k]: m for k, m in zip(flat, res)}
+    idx_all = [i for i, r in enumerate(rows) if r["case"]["k"] == kind]
+    out = {}
+    # batches keep the 16 parallel coqc processes small (memory)
+    for b0 in range(0, len(idx_all), 2000):
+        idx = idx_all[b0:b0 + 2000]
+        terms = [term_fn(rows[i]) for i in idx]
+        order = sorted(range(len(idx)), key=lambda k: len(terms[k]))
+        nsh = 16
+        buckets = [[] for _ in range(nsh)]
+        for j, k in enumerate(order):
+            buckets[j % nsh].append(k)
+        flat = [k for b in buckets for k in b]
+        shard = max(1, (len(flat) + nsh - 1) // nsh)
+        res = vlib.coq_eval(PROP + "_%d" % kind, IMPORTS, run_fn, [terms[k] for k in flat], shard=shard)
+        for k, m in zip(flat, res):
+            out[idx[k]] = m
+    return out
 
 
 WHAT = {
@@ -193,6 +199,9 @@ def run(tier, replay):
     wd = vlib.workdir(PROP)
     (binp,) = vlib.build_harness(["c08"])
     proof = vlib.proof_stage(PROP, V, "props/C08.v")
+    okb, logb = vlib.coq_make(["theories/CodecRun.vo"])   # evaluation entry point (not in the theorems' cone)
+    if not okb:
+        raise vlib.Infra("CodecRun.v does not build: " + logb[-1500:])
 
     rows = []
     corpus = sorted(glob.glob(os.path.join(vlib.VERIF, "corpus", PROP, "*.json")))
@@ -203,7 +212,7 @@ def run(tier, replay):
     n_corpus = len(rows)
     if not replay:
         if tier == "quick":
-            rows += run_harness(binp, wd, "gen.jsonl", ["--n", "2500"])
+            rows += run_harness(binp, wd, "gen.jsonl", ["--n", "1500"])
         else:
             for k in range(4):
                 rows += run_harness(binp, wd, "gen%d.jsonl" % k, ["--n", "6000"],
